@@ -69,14 +69,14 @@ theorem parse_token_block_count (d : List UInt8) (p : Parsed) (h : parse d = .ok
   Proofs.parse_totals d p h
 
 /-- **the correction data is linear in the input**: `decompress_deflate_stream`, either verify setting -/
-theorem correction_size (verify : Bool) (d : List UInt8) (hd : d.length < 2 ^ 29)
+theorem correction_size (verify : Bool) (d : List UInt8) (hd : d.length < 2 ^ 61)
     (plain : Array Nat) (bytes : Array UInt8) (n : Nat) (q : Params)
     (h : decompressBytes Est.estimate Chains.pred verify d = .ok (plain, bytes, n, q)) :
     bytes.size ≤ 224 * d.length + 202 :=
   Proofs.corr_size_le verify d hd plain bytes n q h
 
 /-- … as the scanner sees it: the corrections stored for an accepted candidate -/
-theorem library_correction_size (d : Bytes) (hd : d.length < 2 ^ 29) (r : Res)
+theorem library_correction_size (d : Bytes) (hd : d.length < 2 ^ 61) (r : Res)
     (h : libOracle.verified d = .ok r) : r.corr.length ≤ 224 * d.length + 202 :=
   Proofs.lib_corr_size_le d hd r h
 
